@@ -1312,5 +1312,149 @@ theorem nonzeroWith_dense (prune : Bool) (x : COO Int) (hc : x.Canonical) (hfill
       intro e he
       simpa using h1 e he
 
+/-! ### the whole kernels: group / column extraction -/
+
+/-- the runs, concatenated, are the input: `_sort_coo`'s group detection loses and duplicates nothing -/
+theorem runs_flatten : ∀ (es : List (Nat × Nat × Int)),
+    (runs es).flatMap (fun gr => gr.2.map fun e => (gr.1, e.1, e.2)) = es
+  | [] => by simp [runs]
+  | (g, c, v) :: rest => by
+    have ih := runs_flatten rest
+    rw [runs]
+    cases hr : runs rest with
+    | nil =>
+      rw [hr] at ih
+      simp at ih
+      simp [← ih]
+    | cons gr more =>
+      obtain ⟨g', r⟩ := gr
+      rw [hr] at ih
+      by_cases hg : g = g'
+      · subst hg
+        simp only [if_true]
+        simp only [List.flatMap_cons, List.map_cons, List.cons_append] at ih ⊢
+        rw [ih]
+      · simp only [hg, if_false]
+        simp only [List.flatMap_cons, List.map_cons, List.map_nil, List.cons_append, List.nil_append] at ih ⊢
+        rw [ih]
+
+/-- on entries sorted by group coordinate (a canonical 2-d array) the run labels are strictly increasing:
+every group is exactly one run -/
+theorem runs_labels : ∀ (es : List (Nat × Nat × Int)), (es.map (·.1)).Pairwise (· ≤ ·) →
+    ((runs es).map (·.1)).Pairwise (· < ·) ∧ ∀ gr ∈ runs es, ∃ e ∈ es, e.1 = gr.1
+  | [], _ => by simp [runs]
+  | (g, c, v) :: rest, h => by
+    simp only [List.map_cons, List.pairwise_cons] at h
+    obtain ⟨ih1, ih2⟩ := runs_labels rest h.2
+    rw [runs]
+    cases hr : runs rest with
+    | nil => simp
+    | cons gr more =>
+      obtain ⟨g', r⟩ := gr
+      rw [hr] at ih1 ih2
+      simp only [List.map_cons, List.pairwise_cons] at ih1
+      have hge : ∀ gr ∈ (g', r) :: more, g ≤ gr.1 := by
+        intro gr hgr
+        obtain ⟨e, he, hk⟩ := ih2 gr hgr
+        rw [← hk]
+        exact h.1 e.1 (List.mem_map.mpr ⟨e, he, rfl⟩)
+      by_cases hg : g = g'
+      · subst hg
+        simp only [if_true, List.map_cons, List.pairwise_cons]
+        refine ⟨ih1, ?_⟩
+        intro gr hgr
+        rcases List.mem_cons.mp hgr with rfl | hgr
+        · exact ⟨(g, c, v), List.mem_cons_self, rfl⟩
+        · obtain ⟨e, he, hk⟩ := ih2 gr (List.mem_cons_of_mem _ hgr)
+          exact ⟨e, List.mem_cons_of_mem _ he, hk⟩
+      · simp only [hg, if_false, List.map_cons, List.pairwise_cons]
+        have hlt : g < g' := by
+          have := hge (g', r) List.mem_cons_self
+          simp only at this
+          omega
+        refine ⟨⟨?_, ih1⟩, ?_⟩
+        · intro a ha
+          rcases List.mem_cons.mp ha with rfl | ha
+          · exact hlt
+          · have := ih1.1 a ha; omega
+        · intro gr hgr
+          rcases List.mem_cons.mp hgr with rfl | hgr
+          · exact ⟨(g, c, v), List.mem_cons_self, rfl⟩
+          · obtain ⟨e, he, hk⟩ := ih2 gr hgr
+            exact ⟨e, List.mem_cons_of_mem _ he, hk⟩
+
+/-- the stored entries of group `g` -/
+def rowOf (g : Nat) (e : Nat × Nat × Int) : Option (Nat × Int) := if e.1 = g then some (e.2.1, e.2.2) else none
+
+theorem filterMap_rowOf_run (g g' : Nat) (r : Row) :
+    (r.map fun e => (g', e.1, e.2)).filterMap (rowOf g) = if g' = g then r else [] := by
+  by_cases h : g' = g
+  · simp only [h, if_true, List.filterMap_map]
+    have : (rowOf g ∘ fun e : Nat × Int => (g, e.1, e.2)) = some := by
+      funext e; simp [rowOf]
+    rw [this, List.filterMap_some]
+  · simp only [h, if_false, List.filterMap_map]
+    have : (rowOf g ∘ fun e : Nat × Int => (g', e.1, e.2)) = fun _ => none := by
+      funext e; simp [rowOf, h]
+    rw [this]; simp
+
+/-- picking the one run labelled `g` commutes with any per-run function that maps `[]` to `[]` -/
+theorem pick_run (g : Nat) (f : Row → Row) (hf : f [] = []) : ∀ (L : List (Nat × Row)), (L.map (·.1)).Nodup →
+    L.flatMap (fun gr => if gr.1 = g then f gr.2 else []) = f (L.flatMap fun gr => if gr.1 = g then gr.2 else [])
+  | [], _ => by simp [hf]
+  | (g', r) :: L, hnd => by
+    simp only [List.map_cons, List.nodup_cons] at hnd
+    have ih := pick_run g f hf L hnd.2
+    simp only [List.flatMap_cons]
+    by_cases h : g' = g
+    · subst h
+      have hnone : ∀ (k : Row → Row), L.flatMap (fun gr => if gr.1 = g' then k gr.2 else []) = [] := by
+        intro k
+        rw [List.flatMap_eq_nil_iff]
+        intro gr hgr
+        have : gr.1 ≠ g' := fun hh => hnd.1 (hh ▸ List.mem_map.mpr ⟨gr, hgr, rfl⟩)
+        simp [this]
+      rw [hnone f]
+      have := hnone id
+      simp only [id] at this
+      simp [this]
+    · simp only [h, if_false, List.nil_append]
+      exact ih
+
+/-- **the whole kernel**: on a canonical 2-d coordinate list, the entries `_sort_coo` returns for group `g`
+are `sortRow` of the entries it was given for group `g` — for every group, empty ones included. -/
+theorem sortCoo_row (descending : Bool) (n : Nat) (fill : Int) (es : List (Nat × Nat × Int))
+    (hs : (es.map (·.1)).Pairwise (· ≤ ·)) (g : Nat) :
+    (sortCoo descending n fill es).filterMap (rowOf g) = sortRow descending n fill (es.filterMap (rowOf g)) := by
+  have hnd : ((runs es).map (·.1)).Nodup := (runs_labels es hs).1.imp fun {a b} h => by omega
+  have hf : sortRow descending n fill [] = [] := by simp [sortRow]
+  have hflat := runs_flatten es
+  unfold sortCoo
+  rw [List.filterMap_flatMap]
+  conv => rhs; rw [← hflat, List.filterMap_flatMap]
+  simp only [filterMap_rowOf_run]
+  exact pick_run g (sortRow descending n fill) hf (runs es) hnd
+
+
+/-- the stored entries of column `j` as `_compute_minmax_args` masks them -/
+def colOf (j : Nat) (e : Nat × Nat × Int) : Option (Nat × Int) := if e.2.1 = j then some (e.1, e.2.2) else none
+
+theorem computeMinmaxArgs_mem (maxMode : Bool) (n : Nat) (fill : Int) (es : List (Nat × Nat × Int)) (p : Nat × Nat)
+    (hp : p ∈ computeMinmaxArgs maxMode n fill es) :
+    p.2 = argMinMaxCol maxMode n fill (es.filterMap (colOf p.1)) ∧ ∃ e ∈ es, e.2.1 = p.1 := by
+  unfold computeMinmaxArgs at hp
+  obtain ⟨j, hj, rfl⟩ := List.mem_map.mp hp
+  refine ⟨rfl, ?_⟩
+  rw [mem_dedupAdj, List.mem_mergeSort] at hj
+  obtain ⟨e, he, hk⟩ := List.mem_map.mp hj
+  exact ⟨e, he, hk⟩
+
+theorem computeMinmaxArgs_covers (maxMode : Bool) (n : Nat) (fill : Int) (es : List (Nat × Nat × Int)) (e : Nat × Nat × Int)
+    (he : e ∈ es) : ∃ p ∈ computeMinmaxArgs maxMode n fill es, p.1 = e.2.1 := by
+  unfold computeMinmaxArgs
+  refine ⟨(e.2.1, _), List.mem_map.mpr ⟨e.2.1, ?_, rfl⟩, rfl⟩
+  rw [mem_dedupAdj, List.mem_mergeSort]
+  exact List.mem_map.mpr ⟨e, he, rfl⟩
+
 end Search
 end SparseV
